@@ -20,6 +20,7 @@ import numpy as rnp  # the real numpy  # noqa: E402
 from symx import core, loader  # noqa: E402
 from symx.core import Ctx, Sym, SymBool, Cond, explore  # noqa: E402
 
+REPLAY_REQUEST = None  # set by harness.run --replay
 EVID = os.path.join(VERIF, "evidence")
 REPLAY = os.path.join(EVID, "replay")
 
@@ -244,6 +245,13 @@ def run_e2_once(name, names, body, pre=None, positive=(), expect_raise=None, max
     ``pre(V)`` returns a list of SymBool/Cond preconditions.
     """
     t0 = time.time()
+    if REPLAY_REQUEST:
+        # bin/check <ID> --replay FILE: run the harness body on the real float64 code at the recorded witness
+        w = {k: Fraction(v) for k, v in REPLAY_REQUEST["witness"].items()}
+        rep = replay_concrete(concrete or body, names, w, rtol)
+        hit = _match_claim(rep, REPLAY_REQUEST["claim"])
+        return dict(name=name, replay=dict(claim=REPLAY_REQUEST["claim"], float_values=rep.get("values"), error=rep.get("error"),
+                                           claim_result=(None if hit is None else dict(holds=hit[0], detail=hit[1]))))
     ctx = Ctx(list(names), natoms=natoms, pi=pi)
     ctx.alt_timeout_ms = alt_timeout_ms
     ctx.solver_timeout_ms = solver_timeout_ms
